@@ -9,7 +9,7 @@ from sim.seams import Env
 
 PROPERTY = "C25"
 LEVEL = "exploration"
-SCENARIOS = {"init": 2, "scan": 1, "mixed": 2}
+SCENARIOS = {"parallel": 1, "init": 2, "scan": 1, "mixed": 2}
 TIERS = {"quick": {"runs": 8000, "chunk": 25}, "thorough": {"runs": 50000000, "wall_s": 600, "chunk": 100, "recheck": 16}}
 RULE = ("one run = a simulated bus of 2-12 terminals, some with pre-assigned station "
         "addresses inside/outside a narrowed terminal_addr_range, the master's random "
@@ -31,7 +31,13 @@ ASSUMPTIONS = ["the address range always has at least three times as many values
 def run(tape, scenario):
     from ebpfcat.ethercat import EtherCat, Terminal
 
-    env = Env(tape, faults=WireFaults(delay_buckets=(50e-6, 20e-6, 120e-6, 500e-6)))
+    # 'parallel': the master is a ParallelEtherCat inside its run() (real dispatcher, shared
+    # lock files); the mailbox lock file may be a left-over of a master with another range
+    parallel = scenario == "parallel"
+    if parallel:
+        scenario = tape.pick("c25/parallel-workload", ["init", "mixed", "scan"])
+    env = Env(tape, faults=WireFaults(delay_buckets=(50e-6, 20e-6, 120e-6, 500e-6)),
+              with_kernel=parallel, with_fs=parallel)
     world = env.world
     n = 2 + tape.draw("c25/nterm", 11)
     lo = 1000
@@ -83,30 +89,62 @@ def run(tape, scenario):
             held_ever.add(st)
     preassigned = [t.station for t in terms]
 
-    # bias the master's address draws towards collisions
+    # bias the master's address draws towards collisions: with addresses some terminal
+    # holds or held, and with addresses drawn before (reserved, maybe not yet written)
+    drawn = []
+
     def collide(a, b):
         if (a, b) != (lo, hi):
             return None
-        if tape.chance("c25/collide", 40):
-            pool = sorted(x for x in held_ever if a <= x <= b)
-            if pool:
-                return tape.pick("c25/collide-which", pool)
-        return None
+        pool = sorted({x for x in held_ever if a <= x <= b} | set(drawn))
+        if pool and tape.chance("c25/collide", 40):
+            return tape.pick("c25/collide-which", pool)
+        v = a + tape.draw("c25/address", b - a + 1)
+        drawn.append(v)
+        return v
     env.collide["rand/ethercat"] = collide
+    # in some runs a send now and then fails with ENOBUFS (the caller gets OSError; whatever
+    # fails, no address may be handed out wrongly)
+    send_faults = tape.chance("cfg/sendto-fails", 20)
+    connected = [False]
+    if send_faults:
+        env.bus.send_fault = lambda: connected[0] and tape.chance("fault/sendto-enobufs", 4)
 
-    ec = EtherCat("sim0")
+    if parallel:
+        from ebpfcat.ebpfcat import ParallelEtherCat
+        ec = ParallelEtherCat("sim0")
+    else:
+        ec = EtherCat("sim0")
     ec.terminal_addr_range = (lo, hi)
     results = {}
+
+    late = scenario == "mixed" and tape.chance("c25/late-inits", 50)
 
     async def init_one(k):
         t = Terminal(ec)
         t.name = f"T{k}"
         await asyncio.sleep([0, 0, 40e-6, 300e-6][tape.draw("c25/stagger", 4)])
+        if late:
+            # further terminals are initialised while (and right after) a scan runs
+            await asyncio.sleep(tape.draw("c25/late-start", 120) * 100e-6)
         await t.initialize(relative=-k)
         results[k] = t.position
 
     async def main(loop):
-        await ec.connect()
+        if parallel:
+            if tape.chance("c25/leftover-lock-file", 60):
+                # what a master with the default range (or one that crashed) left behind
+                from ebpfcat.lock import LockFile
+                LockFile("/run/ebpf/sim0", 1000, 30000).close()
+                world.count("c25/leftover-lock-file-of-another-range")
+            async with ec.run():
+                await body()
+        else:
+            await ec.connect()
+            await body()
+
+    async def body():
+        connected[0] = True
         jobs = []
         if scenario in ("init", "mixed"):
             which = [k for k in range(n) if scenario == "init" or tape.chance("c25/init-this", 60)]
@@ -116,7 +154,8 @@ def run(tape, scenario):
                 await asyncio.sleep([0, 100e-6, 1e-3][tape.draw("c25/scan-delay", 3)])
                 results["scan"] = await ec.scan_serial_numbers()
             jobs.append(scan())
-        await asyncio.wait_for(asyncio.gather(*jobs), 20)
+        # (with send faults single jobs fail with OSError: the others go on)
+        await asyncio.wait_for(asyncio.gather(*jobs, return_exceptions=send_faults), 20)
 
     violations = []
     failure = None
@@ -160,6 +199,8 @@ def run(tape, scenario):
             viol("final-addresses-collide",
                  f"terminal {k} ends at {terms[k].station}, so do terminals {others}")
     for m, tn, txt in loop_exc:
+        if send_faults and tn == "OSError":
+            continue        # process_packet passes the failed send on to its callers
         viol("library-task-died", f"{m}: {tn}: {txt}", exception=tn)
         break
     world.count("c25/address-writes", len(writes))
